@@ -67,6 +67,19 @@ def fitted_order(eps, err, floor):
     return float(p[0])
 
 
+def within_envelope(err, floor):
+    """O(eps^2) as a verdict: every error from the fourth-largest eps on lies under the eps^1.8 extrapolation (x4) of the worst
+    of the three largest eps, down to the rounding floor. A first-order term C eps leaves the envelope by a factor
+    (eps_j/eps_i)^0.8 / 4 (x4 at the smallest eps), a constant offset by much more; sequences that pass through a sign change of
+    the error at large eps (irregular but tiny) stay inside. The fitted order is reported with a violation, not judged."""
+    err = np.asarray(err, float)
+    for i in range(3, len(EPS)):
+        bound = 4.0 * max(err[j] * (EPS[i] / EPS[j]) ** 1.8 for j in range(3)) + floor
+        if not (err[i] <= bound):
+            return False
+    return True
+
+
 def study(part, o, rows, kind, ftype, mf, obj, clause_prefix, cond, det):
     """kind: 'marginal' or 'chief'. Returns nothing; records violations."""
     w = 0.5876
@@ -118,8 +131,7 @@ def study(part, o, rows, kind, ftype, mf, obj, clause_prefix, cond, det):
             if err[0] > floor:
                 nontrivial = True
             order = fitted_order(EPS, err, floor)
-            bound = 4.0 * max(err[i] * (EPS[-1] / EPS[i]) ** 1.8 for i in range(3)) + floor   # from the worst of the three largest eps
-            bad = (order is not None and order < 1.8) or err[-1] > bound
+            bad = not within_envelope(err, floor)
             part.count('cmp:' + clause_prefix + kind)
             if bad:
                 part.violation(PID, f'{clause_prefix}{kind}-{name}-converges-quadratically', 'Optic.trace_generic', cond,
@@ -134,9 +146,8 @@ def study(part, o, rows, kind, ftype, mf, obj, clause_prefix, cond, det):
             floor = 1e-9 * sc
             if np.all(np.isfinite(ZF)) and abs(zf_ref) < 1e5:
                 order = fitted_order(EPS, err, floor)
-                bound = 4.0 * max(err[i] * (EPS[-1] / EPS[i]) ** 1.8 for i in range(3)) + floor   # from the worst of the three largest eps
                 part.count('cmp:' + clause_prefix + 'focus')
-                if (order is not None and order < 1.8) or err[-1] > bound:
+                if not within_envelope(err, floor):
                     part.violation(PID, f'{clause_prefix}axial-focus-tends-to-paraxial-focus', 'Optic.trace_generic', cond,
                                    dict(det, paraxial_focus=zf_ref), observed=dict(order=order, err=err.tolist()),
                                    expected='O(eps^2)', tol=1.8)
